@@ -60,6 +60,11 @@ def corpus_projection(indir, start):
         lines = g.normalize_structs(obs, A, include_root=True)
         lines += [f"MODULE\t{A['mod2uri'].get(m, '?' + m)}" for m in obs["mods"]]
         lines += [f"CHECK\t{A['mod2uri'].get(c['mod'], '?' + c['mod'])}\t{c['name']}\t{' '.join(c['body'].split())}" for c in obs["checks"] if "Restrictions" in c["body"]]
+        # which members the restriction check of a struct hands the check on to (every member must be there, at every depth)
+        import re as _re
+        lines += [f"DELEGATES\t{A['mod2uri'].get(c['mod'], '?' + c['mod']) if c['mod'] not in ('', '-') else '(no module)'}\t{c['name']}\t" +
+                  ",".join(_re.findall(r"self\.\s*((?:r#)?[A-Za-z_][A-Za-z0-9_]*)\s*\.\s*check_restrictions", c["body"]))
+                  for c in obs["checks"] if "Restrictions" not in c["body"]]
         lines += [f"FN\t{f['owner']}\t{f['name']}\tasync={int(f['async'])}\t{f['args']}\t{f['ret']}" for f in obs["fns"] if f["owner"] != "-" or f["async"]]
         lines += [f"STRING\t{k}\t{v}" for k, v in obs["conststr"] if "://" in v or v.startswith("urn:")]
         return sorted(lines)
